@@ -63,7 +63,7 @@ def tus(tier, seed, section=None):
         hdr = hdr.replace(s + '.py', 'C01.py')
     hdr = hdr.replace('.py', '.h')
     for i in range(0, len(combos), per):
-        body = '#define SEC_%s 1\n#include "%s"\nint main(){ install(); Rng rng(seed_from_env()+%d);\n' % (section, hdr, i)
+        body = '#define SEC_%s 1\n%s#include "%s"\nint main(){ install(); Rng rng(seed_from_env()+%d);\n' % (section, '#define SEC_C02Q 1\n' if section == 'C02' else '', hdr, i)
         for (a, e1, b, e2, rx) in combos[i:i + per]:
             body += '  go<%s, %d, %s, %d, %d>(rng);\n' % (CT[a], e1, CT[b], e2, rx)
         body += '}\n'
